@@ -8,7 +8,7 @@ import numpy as np
 
 from harness import graphgen as gg
 from harness.c01 import compare_graph, malform
-from harness.common import Failure, HarnessError, cbool, clist, exn_name
+from harness.common import Failure, HarnessError, cbool, clist, cstr, cz, exn_name
 from harness.storelib import Interner, TracingStore, abstract_meta_obj, c_meta, c_otree, dump_tree, tree_printable
 
 PROP = "C05"
@@ -18,7 +18,13 @@ RULE = ("graphs N<=3 with <=2 properties per element kind (all property kinds) x
         "then once for EVERY store mutation k (set / set_if_not_exists / delete / delete_dir in program order) with an OSError injected at k; "
         "the surviving store is dumped and judged by validate_structure + read_to_memory; plus structurally invalid inputs (wrong lengths, "
         "stale metadata, mixed var-length) without faults; entry points write_arrays (tied to the Coq model), write_dicts and geff.write "
-        "for networkx (oracle only); non-trivial = trace of >= 10 mutations; distinct by structural input; "
+        "for networkx (tied to api_write through the captured arrays); dictionary-level block (tied to Dicts.write_dicts / Backends.nx_write "
+        "behind the wrapper's guard: IDictsCrash / INxCrash): N<=3 nodes, <=3 properties out of {float, int, bool, str, int beyond int64, "
+        "fixed list, ragged list} present on subsets, a property on the last node only, property-name lists with an absent / omitted name, "
+        "ids incl. 2^63+5 / 2^64-1, 30% dictionaries that cannot be converted (ragged inside a value, negative id, the LAST property of the "
+        "last table) x pre-state {fresh, foreign, geff} x write_dicts (no overwrite parameter) / geff.write(networkx, overwrite on a geff) "
+        "x directed / undirected; crash points inside a directory deletion (delete_dir carried out key by key in four orders); "
+        "non-trivial = trace of >= 10 mutations; distinct by structural input; "
         "entry points on a directory target (harness/c05_entries.py, tied to Entry.v): from_ctc_to_geff (label volume none / inside), "
         "from_trackmate_xml_to_geff, write_dicts, Nx/Rx/Sg backend writers called directly, the spatial-graph writer through geff.write, on "
         "fresh / foreign / geff / geff-beside-foreign directories: failures injected below the path (every mutation of a LocalStore rooted in "
@@ -51,6 +57,8 @@ def generate(rng: random.Random, tier: str):
                "validate": True, "old": small_graph(rng) if pre == "geff" else None, **malform(rng, g)}
     for i in range(14 if tier == "quick" else 120):
         yield dicts_case(rng)
+    for i in range(40 if tier == "quick" else 400):
+        yield dicts_model_case(rng)
     # crash points INSIDE a directory deletion: delete_dir carried out key by key (in several orders), each key deletion a point of
     # failure -- the deletion of the previous geff under overwrite=True and the clean-up of a rejected write
     for i in range(10 if tier == "quick" else 80):
@@ -88,6 +96,61 @@ def dicts_case(rng):
             "validate": True, "nodes": nodes, "edges": edges, "directed": True, "old": small_graph(rng) if pre == "geff" else None}
 
 
+DICT_VALUES = {
+    "float": lambda rng: rng.randint(-8, 8) / 4, "int": lambda rng: rng.randint(-5, 9), "bool": lambda rng: rng.random() < 0.5,
+    "str": lambda rng: rng.choice(["a", "", "bc"]), "big": lambda rng: 2 ** 63 + rng.randint(0, 3),
+    "list": lambda rng: [rng.randint(0, 4), rng.randint(0, 4)], "ragged": lambda rng: [rng.randint(0, 4)] * rng.randint(1, 3),
+}
+
+
+def dicts_model_case(rng):
+    """write_dicts / geff.write(networkx) on dictionaries of every value class of Dicts.v (tied to the Dicts model: IDictsCrash / INxCrash),
+    on every pre-state -- incl. dictionaries that cannot be converted (raise before any mutation; under geff.write(overwrite=True) after
+    the old geff was deleted) and write_dicts meeting an existing geff (it has no overwrite parameter: refusal without mutation)."""
+    n = rng.randint(1, 3)
+    ids = rng.sample(range(0, 50), n)
+    if rng.random() < 0.15:
+        ids[rng.randrange(n)] = rng.choice([2 ** 63 + 5, 2 ** 64 - 1])
+    kinds = rng.sample(sorted(DICT_VALUES), rng.randint(1, 3))
+    nodes = []
+    for j, i in enumerate(ids):
+        d = {}
+        for kd in kinds:
+            # ints beyond int64 next to a fill value become float64 of magnitude 2^63 (C03 finding): beyond what the tree dump encodes exactly
+            if kd == "big" or rng.random() < 0.75 or (j == n - 1 and rng.random() < 0.5):
+                d["p_" + kd] = DICT_VALUES[kd](rng)
+        nodes.append([i, d])
+    if rng.random() < 0.3 and n >= 2:                       # a property present on the last node only
+        nodes[-1][1]["last"] = rng.randint(0, 9)
+    edges = []
+    if n >= 2:
+        edges.append([[ids[0], ids[-1]], {"w": 0.5} if rng.random() < 0.7 else {}])
+        if n >= 3 and rng.random() < 0.5:
+            edges.append([[ids[1], ids[0]], {"w": 1.5, "lab": "x"} if rng.random() < 0.5 else {"lab": "y"}])
+    bad = rng.random() < 0.3
+    if bad:
+        how = rng.choice(["ragged-inside", "negative-id", "late"])
+        if how == "ragged-inside":
+            nodes[0][1]["bad"] = [[1], 2]
+        elif how == "negative-id":
+            nodes[0][0] = -3
+            edges = []
+        else:                                               # the LAST property of the LAST table is the one that cannot be converted
+            if edges:
+                edges[-1][1]["zz_bad"] = [[1], 2]
+            else:
+                nodes[-1][1]["zz_bad"] = [[1], 2]
+    entry = rng.choice(["write_dicts", "nx_dicts", "nx_dicts"])
+    pre = rng.choice(["fresh", "foreign", "geff", "geff"])
+    nnames = sorted({k for _, d in nodes for k in d})
+    enames = sorted({k for _, d in edges for k in d})
+    if entry == "write_dicts" and rng.random() < 0.3 and nnames:
+        nnames = nnames + ["absent"] if rng.random() < 0.5 else nnames[:-1]     # a name no node carries / a property left out
+    return {"kind": "crash", "entry": entry, "fmt": rng.choice([2, 3]), "pre": pre, "overwrite": entry == "nx_dicts" and pre == "geff" and rng.random() < 0.8,
+            "validate": True, "nodes": nodes, "edges": edges, "nnames": nnames, "enames": enames, "directed": rng.random() < 0.7,
+            "bad": bad, "old": small_graph(rng) if pre == "geff" else None}
+
+
 def make_pre(c, it):
     """A fresh inner MemoryStore in the case's pre-state."""
     import zarr
@@ -119,14 +182,14 @@ def call_entry(c, store):
         from geff.core_io import write_dicts
         from geff_spec import GeffMetadata
 
-        write_dicts(store, [(i, d) for i, d in c["nodes"]], [(tuple(e), d) for e, d in c["edges"]], ["t", "s"], ["w"],
+        write_dicts(store, [(i, d) for i, d in c["nodes"]], [(tuple(e), d) for e, d in c["edges"]], c.get("nnames", ["t", "s"]), c.get("enames", ["w"]),
                     GeffMetadata(directed=c["directed"], node_props_metadata={}, edge_props_metadata={}), zarr_format=c["fmt"])
     else:
         import networkx as nx
 
         import geff
 
-        G = nx.DiGraph()
+        G = nx.DiGraph() if c["directed"] else nx.Graph()
         for i, d in c["nodes"]:
             G.add_node(i, **d)
         for (a, b), d in c["edges"]:
@@ -182,6 +245,10 @@ def run_impl(c):
 
         return c05_entries.run_impl(c)
     it = Interner()
+    if c["entry"] in ("write_dicts", "nx_dicts"):
+        from harness.c03 import It
+
+        it = It()                                          # the empty string is token 0 (the fill value of Dicts.v)
     obs = {}
     new, old = expected_graphs(c)
     # fault-free run
@@ -235,6 +302,41 @@ def run_impl(c):
                              lambda tv: f"({'Some ' + c_otree(tv[0]) if tree_printable(tv[0]) else 'None'}, {cbool(tv[1] != 'rejected')})")
                 r = "(Ok tt)" if obs["res"][0] == "ok" else f"(Err {obs['res'][1]})"
                 obs["coq"] = f"({inp}, OCrash {r} {c_otree(final_tree)} {surv})"
+        except HarnessError:
+            pass
+    if c["entry"] in ("write_dicts", "nx_dicts") and tree_printable(pre_tree) and tree_printable(final_tree):
+        # tied to the Dicts model: the node / edge dictionaries themselves are the input (no captured arrays)
+        try:
+            from harness import c03
+
+            if c["entry"] == "write_dicts":
+                from geff_spec import GeffMetadata
+
+                md = GeffMetadata(directed=c["directed"], node_props_metadata={}, edge_props_metadata={})
+                dg = c03.c_dgraph([(i, d) for i, d in c["nodes"]], [(tuple(e), d) for e, d in c["edges"]], it)
+                dg = dg.replace("(PInt ", "(Dicts.PInt ").replace("(PStr ", "(Dicts.PStr ")  # TrackMate.v has constructors of the same names
+                inp = (f"IDictsCrash KObj {c_otree(pre_tree)} {dg} {clist(c.get('nnames', ['t', 's']), cstr)} {clist(c.get('enames', ['w']), cstr)} "
+                       f"{c_meta(abstract_meta_obj(md, it))}")
+            else:
+                import networkx as nx
+
+                G = nx.DiGraph() if c["directed"] else nx.Graph()
+                for i, d in c["nodes"]:
+                    G.add_node(i, **copy.deepcopy(d))
+                for (a, b), d in c["edges"]:
+                    G.add_edge(a, b, **copy.deepcopy(d))
+                mdtok, axtok = c03.default_tokens(it)
+                dg = c03.c_dgraph([(n_, d) for n_, d in G.nodes(data=True)], [((u, v), d) for u, v, d in G.edges(data=True)], it)
+                # the order of the Python sets NxBackend.write builds (same strings, same insertion order, same process: same order)
+                nn = list({k for _, data in G.nodes(data=True) for k in data})
+                en = list({k for _, _, data in G.edges(data=True) for k in data})
+                dg = dg.replace("(PInt ", "(Dicts.PInt ").replace("(PStr ", "(Dicts.PStr ")
+                inp = (f"INxCrash KObj {c_otree(pre_tree)} {cbool(c['directed'])} {dg} {clist(nn, cstr)} {clist(en, cstr)} None "
+                       f"{cz(mdtok)} {cz(axtok)} {cbool(c['overwrite'])}")
+            surv = clist(survivors + [(final_tree, obs["final_judged"])],
+                         lambda tv: f"({'Some ' + c_otree(tv[0]) if tree_printable(tv[0]) else 'None'}, {cbool(tv[1] != 'rejected')})")
+            r = "(Ok tt)" if obs["res"][0] == "ok" else f"(Err {obs['res'][1]})"
+            obs["coq"] = f"({inp}, OCrash {r} {c_otree(final_tree)} {surv})"
         except HarnessError:
             pass
     if c["entry"] == "write_arrays" and tree_printable(pre_tree) and tree_printable(final_tree):
